@@ -115,7 +115,13 @@ def run(prog, rep):
     ga = unroll_const_loops(prog, arm, ga)
 
     # only aliases (locals naming an attribute / an element of a container) are expanded, not computed values
-    genv = {k: v for k, v in local_env(ga).items() if isinstance(v, (ast.Name, ast.Attribute, ast.Subscript))}
+    def _alias(v):
+        # `d.get(k)` / `d.get(k, None)` names the element d[k] (None standing for "absent", which is how the rules read it)
+        if isinstance(v, ast.Call) and isinstance(v.func, ast.Attribute) and v.func.attr == 'get' and not v.keywords and \
+                (len(v.args) == 1 or (len(v.args) == 2 and isinstance(v.args[1], ast.Constant) and v.args[1].value is None)):
+            return ast.Subscript(value=v.func.value, slice=v.args[0], ctx=ast.Load())
+        return v
+    genv = {k: _alias(v) for k, v in local_env(ga).items() if isinstance(_alias(v), (ast.Name, ast.Attribute, ast.Subscript))}
     # the locals the rules talk about, by the role they play (how they are produced), under canonical names
     roles = {}
     for n in walk_no_nested(ga):
@@ -637,6 +643,9 @@ MUTANTS = [
      'find': '                    delegations.delegations[delegation.delegation_id] = delegations.delegations.pop(del_id)', 'replace': '                    delegations.delegations[del_id] = delegation'},
 ]
 TWINS = [
+    {'name': 'node-delegations-through-get-alias', 'file': AF,
+     'find': "                if delegations_by_node.get(node, None) is None:\n                    continue\n",
+     'replace': "                node_delegations = delegations_by_node.get(node, None)\n                if node_delegations is None:\n                    continue\n",},
     {'name': 'type-loop-over-enum', 'file': AF,
      'find': "                for atype in [DelegationType.LABEL, DelegationType.CAPACITY]:\n                    prop_field_name", 'replace': "                for atype in [DelegationType.CAPACITY, DelegationType.LABEL]:\n                    prop_field_name"},
 ]
